@@ -9,7 +9,7 @@ fn nfc_inert(c: char) -> bool {
     (c as u32) < 0x80
         || matches!(
             c,
-            'é' | 'ü' | 'ö' | 'ä' | 'ß' | 'ø' | 'ñ' | '中' | '文' | '🍺' | 'Ω' | 'ж' | '€'
+            'é' | 'ü' | 'ö' | 'ä' | 'ß' | 'ø' | 'ñ' | '中' | '文' | '🍺' | 'Ω' | 'ж' | '€' | '\u{ff45}'
         )
 }
 
